@@ -1,5 +1,6 @@
 import SqiProofs.LllOps
 import SqiProofs.LllCheck
+import SqiProofs.LllDim2
 /- Property C16 — "Lattice reduction keeps the lattice and reduces it; responses are short".
    Property theorems only (+ non-vacuity examples); lemmas live in SqiProofs/Lll*.lean, models in
    SqiModel/{Lll,Dim2}.lean (tied to the C code by the correspondence / certificate harness tools/props/c16.py). -/
@@ -107,5 +108,82 @@ example : lllCheck 98 100 51 100 13 ⟨⟨5, 0, 0, 0⟩, ⟨0, 7, 0, 0⟩, ⟨0,
     rejects. -/
 example : lllRetCheck 98 100 51 100 1 ⟨⟨0, 0, 0, 0⟩, ⟨3, 1, 4, 0⟩, ⟨0, 0, 0, 0⟩, ⟨0, 0, 0, 1⟩⟩ 0
     ⟨⟨0, 0, 0, 0⟩, ⟨0, 0, 1, 0⟩, ⟨0, 0, 0, 0⟩, ⟨0, 0, 0, 1⟩⟩ = false := by decide
+
+
+/-! ## (3) dimension-2 routines (exact integers; models in SqiModel/Dim2.lean, compared with dim2.c on every run)
+
+`none` results of the models = the C code divides by zero / takes the root of a negative number (GMP aborts): this
+happens for collinear / zero input columns (`quat_dim2_lattice_short_basis` reaches `norm_b = 0`), documented in
+notes/C16.md.  NOT proved: termination of the Gauss loop within the model's fuel for independent columns and the
+final `|2<a,b>| ≤ N(b)` (both are evaluated by the harness oracle on every output). -/
+open SqiModel.Dim2 SqiProofs.LllDim2
+
+/-- `quat_dim2_lattice_short_basis`: the output columns are the input columns times an integer matrix of
+    determinant ±1 (same lattice). -/
+theorem short_basis_keeps_lattice {q : Int} {m r : M2} (h : shortBasis q m = some r) :
+    ∃ u : M2, r = mul2 m u ∧ (u.det = 1 ∨ u.det = -1) := shortBasis_unimodular h
+
+/-- … and the first output column is not longer than the second. -/
+theorem short_basis_ordered {q : Int} {m r : M2} (h : shortBasis q m = some r) :
+    normV q r.col0 ≤ normV q r.col1 := shortBasis_ordered h
+
+/-- `quat_dim2_lattice_closest_vector`: `target - target_minus_closest = basis · closest_coords_in_basis`. -/
+theorem closest_vector_in_lattice {q : Int} {rb : M2} {t : V2} {o : CvpOut} (h : closestVector q rb t = some o) :
+    t.sub o.tmc = rb.eval o.coords := closestVector_lattice h
+
+/-- `quat_dim2_lattice_qf_enumerate_short_vec`, soundness of found = 1 (completeness NOT claimed). -/
+theorem enumerate_short_vec_sound {cond : V2 → Option Elem} {q : Int} {tmc : V2} {b : M2} {nb : Int} {mt : Nat}
+    {e : Elem} (h : enumerateShortVec cond q tmc b nb mt = some (some e)) :
+    ∃ x y : Int, cond (tmc.sub (b.eval ⟨x, y⟩)) = some e ∧ normV q (tmc.sub (b.eval ⟨x, y⟩)) ≤ nb :=
+  enumerateShortVec_sound cond q tmc b nb h
+
+/-- `quat_2x2_lattice_enumerate_cvp_filter`: a returned element is `condition v` with `v ≡ target` modulo the
+    lattice and `N(v) ≤ 2^dist_bound`. -/
+theorem enumerate_cvp_filter_sound {cond : V2 → Option Elem} {b : M2} {t : V2} {qf db mt : Nat} {e : Elem}
+    (h : enumerateCvpFilter cond b t qf db mt = some (some e)) :
+    ∃ (u : M2) (z : V2), (u.det = 1 ∨ u.det = -1) ∧ cond (t.sub ((mul2 b u).eval z)) = some e ∧
+      normV (qf : Int) (t.sub ((mul2 b u).eval z)) ≤ 2 ^ db := enumerateCvpFilter_sound h
+
+example : shortBasis 3 ⟨5, 1, 2, 7⟩ = some ⟨5, -4, 2, 5⟩ := by decide
+example : (closestVector 3 ⟨5, -4, 2, 5⟩ ⟨17, -9⟩).isSome = true := by decide
+
+/-! ## (4) `sample_response` (sign.c): decision logic; the random draws are an arbitrary candidate list -/
+
+/-- accepted candidate ⇒ response = lll·v, v ≠ 0 one of the candidates, norm (as computed by
+    `norm_from_2_times_gram`) `< 2^response_length`.  (`0 < norm` follows from v ≠ 0 and positive definiteness of
+    the Gram matrix of a basis; the harness checks `0 < N(x)` on every output.) -/
+theorem sample_response_found {p : Int} {rl : Nat} {denom content : Int} {lll : Mat4} {cands : List Vec4}
+    (h : (sampleResponse p rl denom content lll cands).found = true) :
+    ∃ v ∈ cands, v.isZero = false ∧
+      (sampleResponse p rl denom content lll cands).x = ⟨denom, lll.eval v⟩ ∧
+      normFrom2Gram (respGram p denom content lll) v < 2 ^ rl := sampleResponse_found h
+
+/-- fallback branch: response = first LLL column, norm = gram[0][0]/2, NO test against the bound. -/
+theorem sample_response_fallback {p : Int} {rl : Nat} {denom content : Int} {lll : Mat4} {cands : List Vec4}
+    (h : (sampleResponse p rl denom content lll cands).found = false) :
+    (sampleResponse p rl denom content lll cands).x = ⟨denom, lll.eval e0⟩ ∧
+      normFrom2Gram (respGram p denom content lll) e0 = div2 ((respGram p denom content lll).get 0 0) :=
+  sampleResponse_fallback h
+
+/-- FULL STATEMENT "every response has norm < 2^response_length" is not a property of `sample_response` alone
+    (see `sample_response_fallback_unguarded`).  PROVED (partial): it holds for all draws under the explicit
+    hypothesis that the first reduced vector is below the bound — which for signing lattices follows from
+    `lllCheck_first_vector_short` and the covolume of the lattice (notes/C16.md; measured margin ≥ 4 bits). -/
+theorem response_short_partial {p : Int} {rl : Nat} {denom content : Int} {lll : Mat4} (cands : List Vec4)
+    (hfb : div2 ((respGram p denom content lll).get 0 0) < 2 ^ rl) :
+    ∃ v : Vec4, v.isZero = false ∧ (sampleResponse p rl denom content lll cands).x = ⟨denom, lll.eval v⟩ ∧
+      normFrom2Gram (respGram p denom content lll) v < 2 ^ rl := sampleResponse_short cands hfb
+
+/-- witness that the hypothesis cannot be dropped: p = 3, response_length = 2, lattice 4·ℤ⁴, content 2 — no
+    candidate can be accepted and the function returns a vector of norm 8 ≥ 2². -/
+theorem sample_response_fallback_unguarded :
+    ∃ (p : Int) (rl : Nat) (denom content : Int) (lll : Mat4) (cands : List Vec4),
+      (sampleResponse p rl denom content lll cands).found = false ∧
+      ¬ normFrom2Gram (respGram p denom content lll) e0 < 2 ^ rl :=
+  ⟨3, 2, 1, 2, ⟨⟨4, 0, 0, 0⟩, ⟨0, 4, 0, 0⟩, ⟨0, 0, 4, 0⟩, ⟨0, 0, 0, 4⟩⟩, [⟨1, 0, 0, 0⟩, ⟨0, 0, 0, 0⟩], by decide, by decide⟩
+
+/-- non-vacuity of `sample_response_found` / `response_short_partial` -/
+example : (sampleResponse 3 6 1 2 ⟨⟨1, 0, 0, 0⟩, ⟨0, 1, 0, 0⟩, ⟨0, 0, 1, 0⟩, ⟨0, 0, 0, 1⟩⟩ [⟨0, 0, 0, 0⟩, ⟨1, 1, 0, 0⟩]).found = true
+    ∧ div2 ((respGram 3 1 2 ⟨⟨1, 0, 0, 0⟩, ⟨0, 1, 0, 0⟩, ⟨0, 0, 1, 0⟩, ⟨0, 0, 0, 1⟩⟩).get 0 0) < 2 ^ 6 := by decide
 
 end SqiProps.C16
